@@ -279,7 +279,10 @@ impl<'e> EventLoop<'e> {
         // verification hook: a plain thread whose virtual clock is on does not sleep; the requested
         // wait is reported, the virtual clock advances by it and the wait counts as elapsed
         #[cfg(feature = "verif")]
-        if crate::verif::virtual_clock().is_some() && SchedulableCoroutine::current().is_none() {
+        if crate::verif::virtual_clock().is_some()
+            && !crate::verif::recording_waits()
+            && SchedulableCoroutine::current().is_none()
+        {
             let nanos = left_time.map_or(u64::MAX, |d| u64::try_from(d.as_nanos()).unwrap_or(u64::MAX));
             crate::verif::point("wait_just", nanos, u64::from(left_time.is_none()));
             crate::verif::advance_virtual_clock(nanos);
